@@ -31,7 +31,7 @@ TAU = 2e-7
 TAU_FD = 2e-6
 
 DIMS = [
-    ("mol", ["LiHgc", "LiH", "HF", "H2O", "He"]),  # base: generally contracted shells (NCTR = 2)
+    ("mol", ["LiHgc", "LiH", "HF", "H2O", "He", "Hed"]),  # base: generally contracted shells (NCTR = 2)
     ("fam", ["VIJ", "SL", "VJ", "VI", "VK", "SDMX", "VIJ+SDMX1", "VJ2", "VIJ2", "VI0", "SDMX1", "SDMXG", "SDMXG1",
              "SDMXFull", "SADM", "VK+SDMXG1"]),
     ("sl", ["npa", "nst", "np", "ns"]),
@@ -73,6 +73,7 @@ SPACE = Space(DIMS, _valid)
 def _tier_points(tier):
     pts = SPACE.deviations(1)
     pts += SPACE.product(["fam", "nspin"])
+    pts += [p for p in SPACE.product(["fam"], fixed={"mol": "Hed"}) if "SDMX" in p["fam"] or p["fam"] in ("SADM", "VIJ")]
     pts += SPACE.product(["mode", "nspin", "ev"], fixed={"fam": "VIJ"})
     pts += SPACE.product(["mode", "nspin", "base"], fixed={"fam": "SL"})
     pts += SPACE.product(["sl", "nspin", "fam"], fixed={})[:: 1 if tier == "thorough" else 3]
